@@ -166,7 +166,9 @@ class PGSchema(pg.PluginGroup[MetadataSchema]):
         while parent is not None:
             p_ref = parent.Plugin.ref()
             ret.append(p_ref)
-            curr = self._get_unsafe(p_ref.name, p_ref.version)
+            # continue from exactly that parent release (not the latest compatible one)
+            self._ensure_is_loaded(p_ref)
+            curr = self._LOADED_PLUGINS[p_ref]
             parent = self._parent_schema[curr]
 
         ret.reverse()
